@@ -102,6 +102,12 @@ CHECKS["C12"] = ("TLC explores the segment-filter automaton FilterImpl for every
                  "length, count proportional to length/resolution, count monotone under halving the resolution, the chord-error "
                  "bound, and that a units switch preserves the physical resolution.", "5 C12", TR_NOTE)
 
+CHECKS["C19"] = ("TLC checks the point filter PathFilterImpl (drop rule, ends kept, order) for all height sequences within the bound; "
+                 "on random 8/16-bit images and CSV point sets (also through real image / CSV files) TLC checks pixel values "
+                 "(x column, y row, scale, zero outside), hull classification by integer orientation tests (stored points, min/max "
+                 "inside, zero outside), and for sample_path the ends, collinearity, order, the map's own heights and the drop rule.",
+                 "5 C19", "Trusted: Heightmap.tla; heights quantised to 10^-3; candidates of sparse lines re-queried through get_depth_at().")
+
 NOT_YET = {}
 
 
